@@ -350,7 +350,11 @@ class CallResolver:
         kwargs = {}
         for arg in expr.args:
             if isinstance(arg, Assign):
-                kwargs[arg.name.name.lexeme] = arg.value.accept(self)
+                name = arg.name.name.lexeme
+                if name in kwargs:
+                    # As in Python. The first value would be dropped without notice otherwise
+                    raise CallResolverError(f"Keyword argument repeated: '{name}'")
+                kwargs[name] = arg.value.accept(self)
             else:
                 args.append(arg.accept(self))
         return LazyCall(expr.callee.name.lexeme, args, kwargs)
